@@ -560,4 +560,1355 @@ theorem radix16Digits_of_ok (s : W4) (d : Array Int) (h : Scalar_signedRadix16 s
   rw [h2]
   rfl
 
+/-! ## Loops that are kept as loops (`Loop.iter`), run-time index checks, calls of functions that can panic
+
+The functions below have result type `Res`: a loop that is not unrolled is a `Loop.iter` (it panics with class
+`"fuel"` if the fuel chosen by the translator is exhausted — the lemmas below show that it is not), an index that the
+translator cannot prove in range is checked by `Res.guard … "index"`, and everything is sequenced by `Res.bind`. -/
+
+theorem Res.bind_ok {α β : Type} (v : α) (f : α → Res β) : Res.bind (.ok v) f = f v := rfl
+theorem Res.bind_panic {α β : Type} (c : String) (f : α → Res β) : Res.bind (.panic c) f = .panic c := rfl
+theorem Res.bind_err {α β : Type} (f : α → Res β) : Res.bind (.err : Res α) f = .err := rfl
+theorem Res.guard_true (cls : String) : Res.guard true cls = .ok () := rfl
+theorem Res.guard_of {c : Bool} (h : c = true) (cls : String) : Res.guard c cls = .ok () := by rw [h]; rfl
+
+theorem Loop.iter_succ {σ : Type} (step : σ → Res (σ × Bool)) (n : Nat) (s : σ) :
+    Loop.iter step (n+1) s = (step s).bind fun r => if r.2 then Loop.iter step n r.1 else .ok r.1 := rfl
+
+/-- A loop that makes `n` iterations and leaves at the `n+1`-st evaluation of its header: `Inv k` holds of the state
+after `k` iterations.  Any fuel larger than `n` suffices. -/
+theorem Loop.iter_inv {σ : Type} (step : σ → Res (σ × Bool)) (Inv : Nat → σ → Prop) (Post : σ → Prop) (n : Nat)
+    (hstep : ∀ k, k < n → ∀ s, Inv k s → ∃ s', step s = .ok (s', true) ∧ Inv (k+1) s')
+    (hexit : ∀ s, Inv n s → ∃ e, step s = .ok (e, false) ∧ Post e) :
+    ∀ (j : Nat) (s : σ), j ≤ n → Inv j s → ∀ fuel, n - j < fuel → ∃ e, Loop.iter step fuel s = .ok e ∧ Post e := by
+  intro j s hj hinv fuel hf
+  induction fuel generalizing j s with
+  | zero => omega
+  | succ fuel ih =>
+    rw [Loop.iter_succ]
+    by_cases hjn : j < n
+    · obtain ⟨s', hs, hinv'⟩ := hstep j hjn s hinv
+      rw [hs]
+      simp only [Res.bind_ok, if_true]
+      exact ih (j+1) s' (by omega) hinv' (by omega)
+    · have : j = n := by omega
+      subst this
+      obtain ⟨e, he, hp⟩ := hexit s hinv
+      rw [he]
+      exact ⟨e, by simp [Res.bind_ok], hp⟩
+
+/-! ### tables.go: variable-time table selection `*dest = v.points[x/2]` -/
+
+/-- `*dest = v.points[x/2]` with the run-time index check (`n` entries); `x / 2` is `int8` division -/
+def nafSelectI8 {α : Type} [Inhabited α] (n : Nat) (t : Array α) (x : Int) : Res α :=
+  let i := I8.quo x 2
+  Res.bind (Res.guard (decide (0 ≤ i ∧ i < n)) "index") fun _ => .ok t[Int.toNat i]!
+
+def nafLookupTable5_SelectInto (v : Array Cached) (_dest : Cached) (x : Int) : Res Cached := nafSelectI8 8 v x
+def nafLookupTable8_SelectInto (v : Array AffineCached) (_dest : AffineCached) (x : Int) : Res AffineCached := nafSelectI8 64 v x
+
+/-- for a digit `0 < x < 2n` (`x ≤ 127`) the index is in range and the selection is the model's `Point.nafSelect` -/
+theorem nafSelectI8_eq {α : Type} [Inhabited α] (n : Nat) (t : Array α) (x : Int) (h0 : 0 < x) (h1 : x < 2 * n) (h2 : x ≤ 127) :
+    nafSelectI8 n t x = .ok (Point.nafSelect t x) := by
+  have hd : Int.tdiv x 2 = x / 2 := Int.tdiv_eq_ediv_of_nonneg (by omega)
+  have hq : I8.quo x 2 = Int.tdiv x 2 := by
+    unfold I8.quo I8.wrap
+    omega
+  unfold nafSelectI8 Point.nafSelect
+  simp only [hq]
+  have hg : decide (0 ≤ Int.tdiv x 2 ∧ Int.tdiv x 2 < (n : Int)) = true := by
+    rw [hd]; apply decide_eq_true; omega
+  rw [hg]
+  rfl
+
+/-! ### scalar.go: `nonAdjacentForm`
+
+The loop `for pos < 256` in the shape of the SSA: state `(pos, carry, naf)`; two back edges (`continue` after an even
+window, end of the body); the window is computed on two paths (`indexBit < 64-w` or not) that join again, which the
+translator executes separately (`nafSsaTail` is the common rest).  `Scalar_nonAdjacentForm_eq` below: this is the
+model's `Scalar.nonAdjacentForm` (which runs `nafLoop` with fuel 256). -/
+
+abbrev NafSsaState := Nat × Nat × Array Int
+
+def nafSsaTail (w pos carry : Nat) (naf : Array Int) (window : Nat) : Res (NafSsaState × Bool) :=
+  if (window &&& 1) == 0 then .ok ((U.add 64 pos 1, carry, naf), true)
+  else if decide (window < (U.shl 64 1 w) / 2) then
+    .ok ((U.add 64 pos w, 0, naf.set! pos (I8.ofU8 (U.trunc 8 window))), true)
+  else
+    .ok ((U.add 64 pos w, 1, naf.set! pos (I8.sub (I8.ofU8 (U.trunc 8 window)) (I8.ofU8 (U.trunc 8 (U.shl 64 1 w))))), true)
+
+def nafSsaStep (w : Nat) (digits : Array Nat) (s : NafSsaState) : Res (NafSsaState × Bool) :=
+  if decide (s.1 < 256) then
+    if decide (s.1 % 64 < U.sub 64 64 w) then
+      nafSsaTail w s.1 s.2.1 s.2.2
+        (U.add 64 s.2.1 ((digits[s.1 / 64]! >>> (s.1 % 64)) &&& U.sub 64 (U.shl 64 1 w) 1))
+    else
+      nafSsaTail w s.1 s.2.1 s.2.2
+        (U.add 64 s.2.1 (((digits[s.1 / 64]! >>> (s.1 % 64)) ||| U.shl 64 digits[U.add 64 1 (s.1 / 64)]! (U.sub 64 64 (s.1 % 64)))
+          &&& U.sub 64 (U.shl 64 1 w) 1))
+  else .ok (s, false)
+
+
+def Scalar_nonAdjacentForm (s : W4) (w : Nat) : Res (Array Int) :=
+  let b := Scalar.bytes s
+  if decide (b[31]! > 127) then .panic "highbit" else
+  if decide (w < 2) then .panic "naf-w" else
+  if decide (w > 8) then .panic "naf-w" else
+  let digits : Array Nat := #[Scalar.le64 b, Scalar.le64 (Bin.slice b 8 32), Scalar.le64 (Bin.slice b 16 32), Scalar.le64 (Bin.slice b 24 32), 0]
+  Res.bind (Loop.iter (nafSsaStep w digits) 258 (0, 0, Array.replicate 256 0)) fun r => .ok r.2.2
+
+theorem extract_get (b : Bytes) (k j : Nat) (h : k + j < 32) : (b.extract k 32)[j]! = b[k+j]! := by
+  rw [getElem!_def, getElem!_def, Array.getElem?_extract]
+  by_cases h1 : k + j < b.size
+  · have : j < min 32 b.size - k := by omega
+    simp [this]
+  · have : ¬ j < min 32 b.size - k := by omega
+    simp [this]
+    rw [Array.getElem?_eq_none (by omega)]
+
+theorem le64_slice (b : Bytes) (k : Nat) (hk : k + 8 ≤ 32) : Scalar.le64 (Bin.slice b k 32) = Bin.le64 b k := by
+  unfold Scalar.le64 Bin.le64 Bin.slice
+  have h0 := extract_get b k 0 (by omega)
+  rw [Nat.add_zero] at h0
+  simp only [Nat.zero_add, h0, extract_get b k _ (show k + 1 < 32 by omega), extract_get b k _ (show k + 2 < 32 by omega),
+    extract_get b k _ (show k + 3 < 32 by omega), extract_get b k _ (show k + 4 < 32 by omega),
+    extract_get b k _ (show k + 5 < 32 by omega), extract_get b k _ (show k + 6 < 32 by omega), extract_get b k _ (show k + 7 < 32 by omega)]
+
+theorem ofU8_trunc (n : Nat) : I8.ofU8 (U.trunc 8 n) = Scalar.wrap8 (n : Int) := by
+  unfold I8.ofU8 U.trunc Scalar.wrap8
+  split <;> omega
+
+def nafTuple (st : Scalar.NafState) : NafSsaState := (st.pos, st.carry, st.naf)
+
+theorem nafSsaStep_eq (w : Nat) (hw : w ≤ 8) (digits : Array Nat) (st : Scalar.NafState) (hpos : st.pos < 256) :
+    nafSsaStep w digits (nafTuple st) = .ok (nafTuple (Scalar.nafStep w digits st), true) := by
+  have e1 : U.sub 64 64 w = 64 - w := by unfold U.sub; omega
+  have e2 : U.add 64 1 (st.pos / 64) = 1 + st.pos / 64 := by unfold U.add; omega
+  have e3 : U.sub 64 64 (st.pos % 64) = 64 - st.pos % 64 := by unfold U.sub; omega
+  have e4 : U.add 64 st.pos 1 = st.pos + 1 := by unfold U.add; omega
+  have e5 : U.add 64 st.pos w = st.pos + w := by unfold U.add; omega
+  have e6 : ∀ a b : Int, I8.sub a b = Scalar.wrap8 (a - b) := fun _ _ => rfl
+  unfold nafSsaStep nafSsaTail Scalar.nafStep nafTuple
+  simp only [e1, e2, e3, e4, e5, e6, hpos, decide_true, if_true, ofU8_trunc, decide_eq_true_eq]
+  by_cases hb : st.pos % 64 < 64 - w
+  · simp only [hb, if_true]
+    split
+    · rfl
+    · split <;> rfl
+  · simp only [hb, if_false]
+    split
+    · rfl
+    · split <;> rfl
+
+theorem nafSsaStep_exit (w : Nat) (digits : Array Nat) (s : NafSsaState) (hpos : ¬ s.1 < 256) :
+    nafSsaStep w digits s = .ok (s, false) := by
+  unfold nafSsaStep
+  simp only [hpos, decide_false, Bool.false_eq_true, if_false]
+
+theorem nafStep_pos (w : Nat) (hw : 1 ≤ w) (digits : Array Nat) (st : Scalar.NafState) : st.pos < (Scalar.nafStep w digits st).pos := by
+  unfold Scalar.nafStep
+  simp only []
+  repeat' split
+  all_goals (first | (show st.pos < st.pos + 1; omega) | (show st.pos < st.pos + w; omega))
+
+theorem nafSsaLoop_eq (w : Nat) (hw : 1 ≤ w ∧ w ≤ 8) (digits : Array Nat) (fuel : Nat) :
+    ∀ (st : Scalar.NafState) (F : Nat), 256 ≤ fuel + st.pos → fuel < F →
+      Loop.iter (nafSsaStep w digits) F (nafTuple st) = .ok (nafTuple (Scalar.nafLoop w digits fuel st)) := by
+  induction fuel with
+  | zero =>
+    intro st F h hF
+    obtain ⟨F, rfl⟩ : ∃ F', F = F' + 1 := ⟨F - 1, by omega⟩
+    rw [Loop.iter_succ, nafSsaStep_exit w digits _ (by show ¬ st.pos < 256; omega)]
+    rfl
+  | succ fuel ih =>
+    intro st F h hF
+    obtain ⟨F, rfl⟩ : ∃ F', F = F' + 1 := ⟨F - 1, by omega⟩
+    rw [Loop.iter_succ]
+    unfold Scalar.nafLoop
+    by_cases hpos : st.pos < 256
+    · rw [nafSsaStep_eq w hw.2 digits st hpos, if_pos hpos]
+      simp only [Res.bind_ok, if_true]
+      have := nafStep_pos w hw.1 digits st
+      exact ih _ F (by omega) (by omega)
+    · rw [nafSsaStep_exit w digits _ (by exact hpos), if_neg hpos]
+      rfl
+
+theorem Scalar_nonAdjacentForm_eq (s : W4) (w : Nat) : Scalar_nonAdjacentForm s w = Scalar.nonAdjacentForm s w := by
+  unfold Scalar_nonAdjacentForm Scalar.nonAdjacentForm
+  generalize Scalar.bytes s = b
+  simp only [decide_eq_true_eq]
+  by_cases h1 : b[31]! > 127
+  · simp only [h1, if_true]
+  · by_cases h2 : w < 2
+    · simp only [h1, h2, if_true, if_false]
+    · by_cases h3 : w > 8
+      · simp only [h1, h2, h3, if_true, if_false]
+      · simp only [h1, h2, h3, if_false]
+        have hd : (#[Scalar.le64 b, Scalar.le64 (Bin.slice b 8 32), Scalar.le64 (Bin.slice b 16 32), Scalar.le64 (Bin.slice b 24 32), 0] : Array Nat)
+            = #[Scalar.le64at b 0, Scalar.le64at b 1, Scalar.le64at b 2, Scalar.le64at b 3, 0] := by
+          rw [le64_slice b 8 (by omega), le64_slice b 16 (by omega), le64_slice b 24 (by omega)]
+          rfl
+        rw [hd]
+        have := nafSsaLoop_eq w ⟨by omega, by omega⟩ #[Scalar.le64at b 0, Scalar.le64at b 1, Scalar.le64at b 2, Scalar.le64at b 3, 0] 256
+          { naf := Array.replicate 256 0, pos := 0, carry := 0 } 258 (by show 256 ≤ 256 + 0; omega) (by omega)
+        unfold nafTuple at this
+        rw [this]
+        rfl
+
+theorem nonAdjacentForm_ne_err (s : W4) (w : Nat) : Scalar.nonAdjacentForm s w ≠ .err := by
+  unfold Scalar.nonAdjacentForm
+  simp only []
+  repeat' split
+  all_goals (intro h; cases h)
+
+/-! ### scalarmult.go: `VarTimeDoubleScalarBaseMult`
+
+Two loops: the search for the first nonzero coefficient (its counter `j` is not used afterwards: `i` stays 255) and the
+main loop, whose state is `(i, v, multA, multB, tmp1, tmp2)`; the translator executes the nine paths through the body
+separately (`vtdStepB` is the part for `bNaf[i]`).  `vtdDigits_eq`: for digits in the range of the tables this is the
+model's `Point.varTimeDoubleDigits` (a fold over `tmp2` alone). -/
+
+def vtdSkipStep (aNaf bNaf : Array Int) (j : Nat) : Res (Nat × Bool) :=
+  if S.le 64 0 j then
+    Res.bind (Res.guard (decide (j < 256)) "index") fun _ =>
+    if aNaf[j]! != 0 then .ok (j, false)
+    else if bNaf[j]! != 0 then .ok (j, false)
+    else .ok (U.sub 64 j 1, true)
+  else .ok (j, false)
+
+abbrev VtdState := Nat × P3 × Cached × AffineCached × P1xP1 × P2
+
+def vtdStepB (bTable : Array AffineCached) (bNaf : Array Int) (i : Nat) (v : P3) (multA : Cached) (multB : AffineCached)
+    (tmp1 : P1xP1) : Res (VtdState × Bool) :=
+  if decide (bNaf[i]! > 0) then
+    let v := Point.fromP1xP1 tmp1
+    Res.bind (nafSelectI8 64 bTable bNaf[i]!) fun multB =>
+    let tmp1 := Point.P1xP1.addAffine v multB
+    .ok ((U.sub 64 i 1, v, multA, multB, tmp1, Point.P2.fromP1xP1 tmp1), true)
+  else if decide (bNaf[i]! < 0) then
+    let v := Point.fromP1xP1 tmp1
+    Res.bind (nafSelectI8 64 bTable (I8.neg bNaf[i]!)) fun multB =>
+    let tmp1 := Point.P1xP1.subAffine v multB
+    .ok ((U.sub 64 i 1, v, multA, multB, tmp1, Point.P2.fromP1xP1 tmp1), true)
+  else .ok ((U.sub 64 i 1, v, multA, multB, tmp1, Point.P2.fromP1xP1 tmp1), true)
+
+def vtdStep (aTable : Array Cached) (bTable : Array AffineCached) (aNaf bNaf : Array Int) (s : VtdState) : Res (VtdState × Bool) :=
+  if S.le 64 0 s.1 then
+    let tmp1 := Point.P1xP1.double s.2.2.2.2.2
+    Res.bind (Res.guard (decide (s.1 < 256)) "index") fun _ =>
+    if decide (aNaf[s.1]! > 0) then
+      let v := Point.fromP1xP1 tmp1
+      Res.bind (nafSelectI8 8 aTable aNaf[s.1]!) fun multA =>
+      vtdStepB bTable bNaf s.1 v multA s.2.2.2.1 (Point.P1xP1.add v multA)
+    else if decide (aNaf[s.1]! < 0) then
+      let v := Point.fromP1xP1 tmp1
+      Res.bind (nafSelectI8 8 aTable (I8.neg aNaf[s.1]!)) fun multA =>
+      vtdStepB bTable bNaf s.1 v multA s.2.2.2.1 (Point.P1xP1.sub v multA)
+    else vtdStepB bTable bNaf s.1 s.2.1 s.2.2.1 s.2.2.2.1 tmp1
+  else .ok (s, false)
+
+def vtdDigits (v : P3) (aNaf bNaf : Array Int) (A : P3) : Res P3 :=
+  let aTable := Point.naf5Table A
+  Res.bind (Loop.iter (vtdSkipStep aNaf bNaf) 257 255) fun _ =>
+  Res.bind (Loop.iter (vtdStep aTable Point.basepointNafTable aNaf bNaf) 257
+    (255, v, (⟨Fe.rz, Fe.rz, Fe.rz, Fe.rz⟩ : Cached), (⟨Fe.rz, Fe.rz, Fe.rz⟩ : AffineCached), (⟨Fe.rz, Fe.rz, Fe.rz, Fe.rz⟩ : P1xP1), Point.P2.zero)) fun r =>
+  .ok (Point.fromP2 r.2.2.2.2.2)
+
+/-- digits `d` with `|d| < 2n`: the range in which `v.points[d/2]` / `v.points[(-d)/2]` is inside a table of `n` entries -/
+def NafRange (n : Nat) (d : Array Int) : Prop := ∀ i, i < 256 → -(2 * (n : Int)) < d[i]! ∧ d[i]! < 2 * (n : Int)
+
+/-- one iteration of the model's loop (`Point.varTimeDoubleDigits`) -/
+def vtdModelStep (aTable : Array Cached) (bTable : Array AffineCached) (aNaf bNaf : Array Int) (tmp2 : P2) (k : Nat) : P2 :=
+  let i := 255 - k
+  let tmp1 := Point.P1xP1.double tmp2
+  let tmp1 :=
+    if aNaf[i]! > 0 then
+      let v := Point.fromP1xP1 tmp1
+      Point.P1xP1.add v (Point.nafSelect aTable aNaf[i]!)
+    else if aNaf[i]! < 0 then
+      let v := Point.fromP1xP1 tmp1
+      Point.P1xP1.sub v (Point.nafSelect aTable (Scalar.wrap8 (-aNaf[i]!)))
+    else tmp1
+  let tmp1 :=
+    if bNaf[i]! > 0 then
+      let v := Point.fromP1xP1 tmp1
+      Point.P1xP1.addAffine v (Point.nafSelect bTable bNaf[i]!)
+    else if bNaf[i]! < 0 then
+      let v := Point.fromP1xP1 tmp1
+      Point.P1xP1.subAffine v (Point.nafSelect bTable (Scalar.wrap8 (-bNaf[i]!)))
+    else tmp1
+  Point.P2.fromP1xP1 tmp1
+
+theorem varTimeDoubleDigits_fold (aNaf bNaf : Array Int) (A : P3) :
+    Point.varTimeDoubleDigits aNaf bNaf A =
+      Point.fromP2 ((List.range 256).foldl (vtdModelStep (Point.naf5Table A) Point.basepointNafTable aNaf bNaf) Point.P2.zero) := rfl
+
+theorem foldl_range_succ {α : Type} (f : α → Nat → α) (a : α) (n : Nat) :
+    (List.range (n+1)).foldl f a = f ((List.range n).foldl f a) n := by
+  rw [List.range_succ, List.foldl_append]; rfl
+
+theorem sle_small (i : Nat) (h : i < 256) : S.le 64 0 i = true := by
+  unfold S.le S.toInt
+  have h1 : (0 : Nat) < 2 ^ (64 - 1) := by omega
+  have h2 : i < 2 ^ (64 - 1) := by omega
+  simp only [h1, h2, if_true]
+  apply decide_eq_true; omega
+
+theorem sle_minus1 : S.le 64 0 (2 ^ 64 - 1) = false := by decide
+
+theorem sub1 (i : Nat) (h : i < 256) : U.sub 64 i 1 = if i = 0 then 2 ^ 64 - 1 else i - 1 := by
+  unfold U.sub
+  split <;> omega
+
+theorem neg_select {α : Type} [Inhabited α] (n : Nat) (hn : n ≤ 64) (t : Array α) (x : Int) (h0 : x < 0) (h1 : -(2 * (n : Int)) < x) :
+    nafSelectI8 n t (I8.neg x) = .ok (Point.nafSelect t (Scalar.wrap8 (-x))) := by
+  have : I8.neg x = Scalar.wrap8 (-x) := rfl
+  rw [this]
+  have hw : Scalar.wrap8 (-x) = -x := by unfold Scalar.wrap8; omega
+  rw [hw]
+  exact nafSelectI8_eq n t (-x) (by omega) (by omega) (by omega)
+
+theorem vtdStepB_eq (bTable : Array AffineCached) (bNaf : Array Int) (hb : NafRange 64 bNaf) (i : Nat) (hi : i < 256)
+    (v : P3) (multA : Cached) (multB : AffineCached) (tmp1 : P1xP1) :
+    ∃ v' mA mB t1, vtdStepB bTable bNaf i v multA multB tmp1 =
+      .ok ((U.sub 64 i 1, v', mA, mB, t1, Point.P2.fromP1xP1
+        (if bNaf[i]! > 0 then
+          let v := Point.fromP1xP1 tmp1
+          Point.P1xP1.addAffine v (Point.nafSelect bTable bNaf[i]!)
+        else if bNaf[i]! < 0 then
+          let v := Point.fromP1xP1 tmp1
+          Point.P1xP1.subAffine v (Point.nafSelect bTable (Scalar.wrap8 (-bNaf[i]!)))
+        else tmp1)), true) := by
+  unfold vtdStepB
+  have hr := hb i hi
+  by_cases h1 : bNaf[i]! > 0
+  · simp only [h1, decide_true, if_true, nafSelectI8_eq 64 bTable _ h1 (by omega) (by omega), Res.bind_ok]
+    exact ⟨_, _, _, _, rfl⟩
+  · by_cases h2 : bNaf[i]! < 0
+    · simp only [h1, h2, decide_true, decide_false, if_true, Bool.false_eq_true, if_false, neg_select 64 (by omega) bTable _ h2 (by omega), Res.bind_ok]
+      exact ⟨_, _, _, _, rfl⟩
+    · simp only [h1, h2, decide_false, Bool.false_eq_true, if_false]
+      exact ⟨_, _, _, _, rfl⟩
+
+theorem vtdStep_eq (aTable : Array Cached) (bTable : Array AffineCached) (aNaf bNaf : Array Int)
+    (ha : NafRange 8 aNaf) (hb : NafRange 64 bNaf) (k : Nat) (hk : k < 256) (s : VtdState) (hs : s.1 = 255 - k) :
+    ∃ v' mA mB t1, vtdStep aTable bTable aNaf bNaf s =
+      .ok ((U.sub 64 (255 - k) 1, v', mA, mB, t1, vtdModelStep aTable bTable aNaf bNaf s.2.2.2.2.2 k), true) := by
+  obtain ⟨i, v, mA, mB, t1, t2⟩ := s
+  simp only at hs
+  subst hs
+  unfold vtdStep vtdModelStep
+  have hi : 255 - k < 256 := by omega
+  have hr := ha (255 - k) hi
+  simp only [sle_small _ hi, if_true, hi, decide_true, Res.guard_true, Res.bind_ok]
+  by_cases h1 : aNaf[255 - k]! > 0
+  · simp only [h1, decide_true, if_true, nafSelectI8_eq 8 aTable _ h1 (by omega) (by omega), Res.bind_ok]
+    exact vtdStepB_eq bTable bNaf hb _ hi _ _ _ _
+  · by_cases h2 : aNaf[255 - k]! < 0
+    · simp only [h1, h2, decide_true, decide_false, if_true, Bool.false_eq_true, if_false, neg_select 8 (by omega) aTable _ h2 (by omega), Res.bind_ok]
+      exact vtdStepB_eq bTable bNaf hb _ hi _ _ _ _
+    · simp only [h1, h2, decide_false, Bool.false_eq_true, if_false]
+      exact vtdStepB_eq bTable bNaf hb _ hi _ _ _ _
+
+theorem vtdSkip_terminates (aNaf bNaf : Array Int) : ∀ (j : Nat), j < 256 → ∀ fuel, j + 1 < fuel →
+    ∃ e, Loop.iter (vtdSkipStep aNaf bNaf) fuel j = .ok e := by
+  have hlast : ∀ fuel, 0 < fuel → ∃ e, Loop.iter (vtdSkipStep aNaf bNaf) fuel (2 ^ 64 - 1) = .ok e := by
+    intro fuel hf
+    obtain ⟨F, rfl⟩ : ∃ F', fuel = F' + 1 := ⟨fuel - 1, by omega⟩
+    rw [Loop.iter_succ]
+    unfold vtdSkipStep
+    simp only [sle_minus1, Bool.false_eq_true, if_false, Res.bind_ok]
+    exact ⟨_, rfl⟩
+  intro j
+  induction j with
+  | zero =>
+    intro _ fuel hf
+    obtain ⟨F, rfl⟩ : ∃ F', fuel = F' + 1 := ⟨fuel - 1, by omega⟩
+    rw [Loop.iter_succ]
+    unfold vtdSkipStep
+    simp only [sle_small 0 (by omega), if_true, show decide (0 < 256) = true from rfl, Res.guard_true, Res.bind_ok]
+    split
+    · exact ⟨_, rfl⟩
+    · split
+      · exact ⟨_, rfl⟩
+      · simp only [Res.bind_ok, if_true]
+        exact hlast F (by omega)
+  | succ j ih =>
+    intro hj fuel hf
+    obtain ⟨F, rfl⟩ : ∃ F', fuel = F' + 1 := ⟨fuel - 1, by omega⟩
+    rw [Loop.iter_succ]
+    unfold vtdSkipStep
+    simp only [sle_small (j+1) hj, if_true, hj, decide_true, Res.guard_true, Res.bind_ok]
+    split
+    · exact ⟨_, rfl⟩
+    · split
+      · exact ⟨_, rfl⟩
+      · simp only [Res.bind_ok, if_true]
+        have : U.sub 64 (j + 1) 1 = j := by unfold U.sub; omega
+        rw [this]
+        exact ih (by omega) F (by omega)
+
+theorem vtdDigits_eq (v : P3) (aNaf bNaf : Array Int) (A : P3) (ha : NafRange 8 aNaf) (hb : NafRange 64 bNaf) :
+    vtdDigits v aNaf bNaf A = .ok (Point.varTimeDoubleDigits aNaf bNaf A) := by
+  unfold vtdDigits
+  obtain ⟨e, he⟩ := vtdSkip_terminates aNaf bNaf 255 (by omega) 257 (by omega)
+  simp only [he, Res.bind_ok]
+  let f := vtdModelStep (Point.naf5Table A) Point.basepointNafTable aNaf bNaf
+  have key := Loop.iter_inv (vtdStep (Point.naf5Table A) Point.basepointNafTable aNaf bNaf)
+    (fun k s => s.1 = (if k < 256 then 255 - k else 2 ^ 64 - 1) ∧ s.2.2.2.2.2 = (List.range k).foldl f Point.P2.zero)
+    (fun e => e.2.2.2.2.2 = (List.range 256).foldl f Point.P2.zero) 256
+    (by
+      intro k hk s ⟨h1, h2⟩
+      rw [if_pos hk] at h1
+      obtain ⟨v', mA, mB, t1, hstep⟩ := vtdStep_eq (Point.naf5Table A) Point.basepointNafTable aNaf bNaf ha hb k hk s h1
+      refine ⟨_, hstep, ?_, ?_⟩
+      · show U.sub 64 (255 - k) 1 = _
+        rw [sub1 _ (by omega)]
+        by_cases hk2 : k + 1 < 256
+        · rw [if_pos hk2, if_neg (by omega)]; omega
+        · rw [if_neg hk2, if_pos (by omega)]
+      · show vtdModelStep _ _ _ _ s.2.2.2.2.2 k = _
+        rw [foldl_range_succ, h2])
+    (by
+      intro s ⟨h1, h2⟩
+      rw [if_neg (by omega)] at h1
+      refine ⟨s, ?_, h2⟩
+      unfold vtdStep
+      rw [h1, sle_minus1]
+      rfl)
+    0 (255, v, (⟨Fe.rz, Fe.rz, Fe.rz, Fe.rz⟩ : Cached), (⟨Fe.rz, Fe.rz, Fe.rz⟩ : AffineCached), (⟨Fe.rz, Fe.rz, Fe.rz, Fe.rz⟩ : P1xP1), Point.P2.zero)
+      (by omega) ⟨rfl, rfl⟩ 257 (by omega)
+  obtain ⟨e2, he2, hp⟩ := key
+  rw [he2, Res.bind_ok, hp, varTimeDoubleDigits_fold]
+
+def Point_VarTimeDoubleScalarBaseMult (v : P3) (a : W4) (A : P3) (b : W4) : Res P3 :=
+  Res.bind (Scalar_nonAdjacentForm a 5) fun aNaf =>
+  Res.bind (Scalar_nonAdjacentForm b 8) fun bNaf =>
+  vtdDigits v aNaf bNaf A
+
+
+/-- the model's case analysis on the two digit recodings -/
+def vtdMatch (ra rb : Res (Array Int)) (A : P3) : Res P3 :=
+  match ra, rb with
+  | .ok aNaf, .ok bNaf => .ok (Point.varTimeDoubleDigits aNaf bNaf A)
+  | .panic c, _ => .panic c
+  | _, .panic c => .panic c
+  | _, _ => .err
+
+theorem varTimeDoubleScalarBaseMult_match (a : W4) (A : P3) (b : W4) :
+    Point.varTimeDoubleScalarBaseMult a A b = vtdMatch (Scalar.nonAdjacentForm a 5) (Scalar.nonAdjacentForm b 8) A := by
+  -- (unfolded at the level of the function: a goal that applies the model to symbolic scalars must not be unfolded,
+  -- the kernel would evaluate the digit recoding symbolically)
+  obtain ⟨F, hF, h⟩ : ∃ F : W4 → P3 → W4 → Res P3, @Point.varTimeDoubleScalarBaseMult = F ∧
+      ∀ a A b, F a A b = vtdMatch (Scalar.nonAdjacentForm a 5) (Scalar.nonAdjacentForm b 8) A := by
+    refine ⟨_, by delta Point.varTimeDoubleScalarBaseMult; exact rfl, ?_⟩
+    intro a A b
+    generalize Scalar.nonAdjacentForm a 5 = ra
+    generalize Scalar.nonAdjacentForm b 8 = rb
+    cases ra <;> cases rb <;> rfl
+  rw [hF]; exact h a A b
+
+theorem Point_VarTimeDoubleScalarBaseMult_eq (v : P3) (a : W4) (A : P3) (b : W4)
+    (ha : ∀ d, Scalar.nonAdjacentForm a 5 = .ok d → NafRange 8 d)
+    (hb : ∀ d, Scalar.nonAdjacentForm b 8 = .ok d → NafRange 64 d) :
+    Point_VarTimeDoubleScalarBaseMult v a A b = Point.varTimeDoubleScalarBaseMult a A b := by
+  rw [varTimeDoubleScalarBaseMult_match]
+  unfold Point_VarTimeDoubleScalarBaseMult
+  rw [Scalar_nonAdjacentForm_eq, Scalar_nonAdjacentForm_eq]
+  have ea := nonAdjacentForm_ne_err a 5
+  have eb := nonAdjacentForm_ne_err b 8
+  generalize Scalar.nonAdjacentForm a 5 = ra at *
+  generalize Scalar.nonAdjacentForm b 8 = rb at *
+  cases ra with
+  | err => exact absurd rfl ea
+  | panic c => rfl
+  | ok aNaf =>
+    cases rb with
+    | err => exact absurd rfl eb
+    | panic c => rfl
+    | ok bNaf =>
+      simp only [Res.bind_ok]
+      exact vtdDigits_eq v aNaf bNaf A (ha _ rfl) (hb _ rfl)
+/-! ### extra.go: `MultiScalarMult`, `VarTimeMultiScalarMult` -/
+
+/-- `for i := range xs` (`len(xs) = n`) in the shape of the SSA: the phi `i` starts at `-1`, the header computes `i+1`,
+tests it against the length, and the body begins with the index check of its first access `xs[i+1]`.  The rest of the
+state is `σ`; the body is given the continuation that takes the new state to the back edge (so that a body that calls
+functions that can panic, or branches, has the shape of the generated code) -/
+def rangeStep {σ : Type} (n : Nat) (body : Nat → σ → (σ → Res ((Nat × σ) × Bool)) → Res ((Nat × σ) × Bool)) (s : Nat × σ) :
+    Res ((Nat × σ) × Bool) :=
+  if S.lt 64 (U.add 64 s.1 1) n then
+    Res.bind (Res.guard (decide (U.add 64 s.1 1 < n)) "index") fun _ =>
+    body (U.add 64 s.1 1) s.2 fun s' => .ok ((U.add 64 s.1 1, s'), true)
+  else .ok (s, false)
+
+def rangeLoop {σ : Type} (n : Nat) (body : Nat → σ → (σ → Res ((Nat × σ) × Bool)) → Res ((Nat × σ) × Bool)) (s0 : σ) : Res (Nat × σ) :=
+  Loop.iter (rangeStep n body) (n + 2) (18446744073709551615, s0)
+
+/-- the zero values of the locals -/
+def zeroCached : Cached := ⟨Fe.rz, Fe.rz, Fe.rz, Fe.rz⟩
+def zeroP1xP1 : P1xP1 := ⟨Fe.rz, Fe.rz, Fe.rz, Fe.rz⟩
+def zeroTable : Array Cached := #[zeroCached, zeroCached, zeroCached, zeroCached, zeroCached, zeroCached, zeroCached, zeroCached]
+
+/-- `tables[j].SelectInto(multiple, digits[j][i]); tmp1.Add(v, multiple); v.fromP1xP1(tmp1)` (state `v, multiple, tmp1`) -/
+def msmAddStep {ρ : Type} (tables : Array (Array Cached)) (digits : Array (Array Int)) (i j : Nat) (s : P3 × Cached × P1xP1)
+    (k : P3 × Cached × P1xP1 → ρ) : ρ :=
+  let multiple := projSelectI8 tables[j]! digits[j]![i]!
+  let tmp1 := Point.P1xP1.add s.1 multiple
+  k (Point.fromP1xP1 tmp1, multiple, tmp1)
+
+/-- state of the loop `for i := 62; i >= 0; i--`: `i, v, multiple, tmp1, tmp2` -/
+abbrev MsmState := Nat × P3 × Cached × P1xP1 × P2
+
+def msmStep (n : Nat) (tables : Array (Array Cached)) (digits : Array (Array Int)) (s : MsmState) : Res (MsmState × Bool) :=
+  if S.le 64 0 s.1 then
+    let tmp1 := Point.P1xP1.double s.2.2.2.2
+    let tmp2 := Point.P2.fromP1xP1 tmp1
+    let tmp1 := Point.P1xP1.double tmp2
+    let tmp2 := Point.P2.fromP1xP1 tmp1
+    let tmp1 := Point.P1xP1.double tmp2
+    let tmp2 := Point.P2.fromP1xP1 tmp1
+    let tmp1 := Point.P1xP1.double tmp2
+    let v := Point.fromP1xP1 tmp1
+    Res.bind (rangeLoop n (fun j st k => Res.bind (Res.guard (decide (s.1 < 64)) "index") fun _ => msmAddStep tables digits s.1 j st k)
+      (v, s.2.2.1, tmp1)) fun r =>
+    .ok ((U.sub 64 s.1 1, r.2.1, r.2.2.1, r.2.2.2, Point.P2.fromP3 r.2.1), true)
+  else .ok (s, false)
+
+/-- `MultiScalarMult` after the tables and the digits have been computed -/
+def msmDigits (n : Nat) (tables : Array (Array Cached)) (digits : Array (Array Int)) : Res P3 :=
+  Res.bind (rangeLoop n (msmAddStep tables digits 63) (Point.identity, zeroCached, zeroP1xP1)) fun r2 =>
+  Res.bind (Loop.iter (msmStep n tables digits) 64 (62, r2.2.1, r2.2.2.1, r2.2.2.2, Point.P2.fromP3 r2.2.1)) fun r3 =>
+  .ok r3.2.1
+
+def Point_MultiScalarMult (_v : P3) (scalars : Array W4) (points : Array P3) : Res P3 :=
+  if scalars.size != points.size then .panic "length" else
+  Res.bind (rangeLoop points.size (fun i (tabs : Array (Array Cached)) k => k (tabs.set! i (Point.projTable points[i]!)))
+    (Array.replicate points.size zeroTable)) fun r0 =>
+  Res.bind (rangeLoop points.size (fun i (ds : Array (Array Int)) k => Res.bind (Scalar_signedRadix16 scalars[i]!) fun d => k (ds.set! i d))
+    (Array.replicate points.size (Array.replicate 64 0))) fun r1 =>
+  msmDigits points.size r0.2 r1.2
+
+/-- the body of `for j := range nafs` in `VarTimeMultiScalarMult` (state `v, multiple, tmp1`) -/
+def vtmAddStep {ρ : Type} (tables : Array (Array Cached)) (nafs : Array (Array Int)) (i j : Nat) (s : P3 × Cached × P1xP1)
+    (k : P3 × Cached × P1xP1 → Res ρ) : Res ρ :=
+  Res.bind (Res.guard (decide (i < 256)) "index") fun _ =>
+  if decide (nafs[j]![i]! > 0) then
+    let v := Point.fromP1xP1 s.2.2
+    Res.bind (nafSelectI8 8 tables[j]! nafs[j]![i]!) fun multiple =>
+    k (v, multiple, Point.P1xP1.add v multiple)
+  else if decide (nafs[j]![i]! < 0) then
+    let v := Point.fromP1xP1 s.2.2
+    Res.bind (nafSelectI8 8 tables[j]! (I8.neg nafs[j]![i]!)) fun multiple =>
+    k (v, multiple, Point.P1xP1.sub v multiple)
+  else k s
+
+def vtmStep (n : Nat) (tables : Array (Array Cached)) (nafs : Array (Array Int)) (s : MsmState) : Res (MsmState × Bool) :=
+  if S.le 64 0 s.1 then
+    let tmp1 := Point.P1xP1.double s.2.2.2.2
+    Res.bind (rangeLoop n (vtmAddStep tables nafs s.1) (s.2.1, s.2.2.1, tmp1)) fun r =>
+    .ok ((U.sub 64 s.1 1, r.2.1, r.2.2.1, r.2.2.2, Point.P2.fromP1xP1 r.2.2.2), true)
+  else .ok (s, false)
+
+/-- `VarTimeMultiScalarMult` after the tables and the digits have been computed -/
+def vtmDigits (n : Nat) (v : P3) (tables : Array (Array Cached)) (nafs : Array (Array Int)) : Res P3 :=
+  Res.bind (Loop.iter (vtmStep n tables nafs) 257 (255, v, zeroCached, zeroP1xP1, Point.P2.zero)) fun r2 =>
+  .ok (Point.fromP2 r2.2.2.2.2)
+
+def Point_VarTimeMultiScalarMult (v : P3) (scalars : Array W4) (points : Array P3) : Res P3 :=
+  if scalars.size != points.size then .panic "length" else
+  Res.bind (rangeLoop points.size (fun i (tabs : Array (Array Cached)) k => k (tabs.set! i (Point.naf5Table points[i]!)))
+    (Array.replicate points.size zeroTable)) fun r0 =>
+  Res.bind (rangeLoop points.size (fun i (ds : Array (Array Int)) k => Res.bind (Scalar_nonAdjacentForm scalars[i]! 5) fun d => k (ds.set! i d))
+    (Array.replicate points.size (Array.replicate 256 0))) fun r1 =>
+  vtmDigits points.size v r0.2 r1.2
+
+/-! #### generic facts about `range` loops, `Point.collect`, arrays
+
+All facts about counters assume `n < 2^63` (the length of a Go slice is an `int`). -/
+
+theorem slt_small (a b : Nat) (ha : a < 2 ^ 63) (hb : b < 2 ^ 63) : S.lt 64 a b = decide (a < b) := by
+  unfold S.lt S.toInt
+  have h1 : a < 2 ^ (64 - 1) := by omega
+  have h2 : b < 2 ^ (64 - 1) := by omega
+  simp only [h1, h2, if_true]
+  by_cases h : a < b
+  · rw [decide_eq_true h]; apply decide_eq_true; omega
+  · rw [decide_eq_false h]; apply decide_eq_false; omega
+
+/-- the counter of a `range` loop after `k` iterations (`-1` at the start) -/
+def rangeCtr (k : Nat) : Nat := if k = 0 then 18446744073709551615 else k - 1
+
+theorem rangeCtr_next (k : Nat) (hk : k < 2 ^ 63) : U.add 64 (rangeCtr k) 1 = k := by
+  unfold U.add rangeCtr
+  split <;> omega
+
+/-- the outcomes other than `.ok` -/
+inductive Fail where
+  | err
+  | panic (c : String)
+
+def Fail.toRes {α : Type} : Fail → Res α
+  | .err => .err
+  | .panic c => .panic c
+
+theorem Fail.bind {α β : Type} (fl : Fail) (f : α → Res β) : Res.bind (fl.toRes : Res α) f = fl.toRes := by
+  cases fl <;> rfl
+
+theorem Res.ok_or_fail {α : Type} (r : Res α) : (∃ v, r = .ok v) ∨ ∃ fl : Fail, r = fl.toRes := by
+  cases r with
+  | ok v => exact .inl ⟨v, rfl⟩
+  | err => exact .inr ⟨.err, rfl⟩
+  | panic c => exact .inr ⟨.panic c, rfl⟩
+
+/-- a loop whose `m+1`-st evaluation of the header fails -/
+theorem Loop.iter_fail {σ : Type} (step : σ → Res (σ × Bool)) (Inv : Nat → σ → Prop) (m : Nat) (fl : Fail)
+    (hstep : ∀ k, k < m → ∀ s, Inv k s → ∃ s', step s = .ok (s', true) ∧ Inv (k+1) s')
+    (hfail : ∀ s, Inv m s → step s = fl.toRes) :
+    ∀ (j : Nat) (s : σ), j ≤ m → Inv j s → ∀ fuel, m - j < fuel → Loop.iter step fuel s = fl.toRes := by
+  intro j s hj hinv fuel hf
+  induction fuel generalizing j s with
+  | zero => omega
+  | succ fuel ih =>
+    rw [Loop.iter_succ]
+    by_cases hjm : j < m
+    · obtain ⟨s', hs, hinv'⟩ := hstep j hjm s hinv
+      rw [hs]
+      simp only [Res.bind_ok, if_true]
+      exact ih (j+1) s' (by omega) hinv' (by omega)
+    · have : j = m := by omega
+      subst this
+      rw [hfail s hinv, Fail.bind]
+
+variable {σ : Type}
+
+/-- the header of a `range` loop after `k < n` iterations: the body is entered with index `k` -/
+theorem rangeStep_enter (n : Nat) (hn : n < 2 ^ 63) (body : Nat → σ → (σ → Res ((Nat × σ) × Bool)) → Res ((Nat × σ) × Bool))
+    (k : Nat) (hk : k < n) (s : σ) :
+    rangeStep n body (rangeCtr k, s) = body k s fun s' => .ok ((k, s'), true) := by
+  unfold rangeStep
+  simp only [rangeCtr_next k (by omega), slt_small k n (by omega) hn, hk, decide_true, if_true, Res.guard_true, Res.bind_ok]
+
+theorem rangeStep_exit (n : Nat) (hn : n < 2 ^ 63) (body : Nat → σ → (σ → Res ((Nat × σ) × Bool)) → Res ((Nat × σ) × Bool))
+    (s : σ) : rangeStep n body (rangeCtr n, s) = .ok ((rangeCtr n, s), false) := by
+  unfold rangeStep
+  simp only [rangeCtr_next n hn, slt_small n n hn hn, Nat.lt_irrefl, decide_false, Bool.false_eq_true, if_false]
+
+/-- a `range` loop whose body always reaches the back edge, with new state `f i s` (under the invariant `P`) -/
+theorem rangeLoop_pure (n : Nat) (hn : n < 2 ^ 63) (body : Nat → σ → (σ → Res ((Nat × σ) × Bool)) → Res ((Nat × σ) × Bool))
+    (f : σ → Nat → σ) (P : Nat → σ → Prop)
+    (hbody : ∀ i, i < n → ∀ s, P i s → (∀ k, body i s k = k (f s i)) ∧ P (i+1) (f s i))
+    (s0 : σ) (h0 : P 0 s0) :
+    rangeLoop n body s0 = .ok (rangeCtr n, (List.range n).foldl f s0) ∧ P n ((List.range n).foldl f s0) := by
+  have key := Loop.iter_inv (rangeStep n body)
+    (fun k s => s.1 = rangeCtr k ∧ s.2 = (List.range k).foldl f s0 ∧ P k s.2)
+    (fun e => e = (rangeCtr n, (List.range n).foldl f s0) ∧ P n e.2) n
+    (by
+      intro k hk s ⟨h1, h2, h3⟩
+      obtain ⟨c, st⟩ := s
+      simp only at h1 h2 h3
+      subst h1
+      obtain ⟨hb, hp⟩ := hbody k hk st h3
+      refine ⟨_, by rw [rangeStep_enter n hn body k hk st, hb], ?_, ?_, hp⟩
+      · show k = rangeCtr (k+1)
+        unfold rangeCtr; simp
+      · show f st k = _
+        rw [foldl_range_succ, h2])
+    (by
+      intro s ⟨h1, h2, h3⟩
+      obtain ⟨c, st⟩ := s
+      simp only at h1 h2 h3
+      subst h1
+      refine ⟨_, rangeStep_exit n hn body st, ?_, h3⟩
+      rw [h2])
+    0 (18446744073709551615, s0) (by omega) ⟨rfl, rfl, h0⟩ (n + 2) (by omega)
+  obtain ⟨e, he, hp1, hp2⟩ := key
+  unfold rangeLoop
+  rw [he, hp1]
+  exact ⟨rfl, by rw [hp1] at hp2; exact hp2⟩
+
+
+/-! arrays -/
+theorem get_set!' {α : Type} [Inhabited α] (a : Array α) (i j : Nat) (v : α) (hi : i < a.size) :
+    (a.set! i v)[j]! = if j = i then v else a[j]! := by
+  by_cases h : j = i
+  · subst h; simp [hi]
+  · have h' : ¬ i = j := fun e => h e.symm
+    simp [h, h', Array.getElem!_eq_getD]
+
+theorem size_set!' {α : Type} (a : Array α) (i : Nat) (v : α) : (a.set! i v).size = a.size := by simp
+
+theorem getElem!_map' {α β : Type} [Inhabited α] [Inhabited β] (f : α → β) (a : Array α) (j : Nat)
+    (h : j < a.size) : (a.map f)[j]! = f a[j]! := by
+  rw [getElem!_pos (a.map f) j (by simpa using h), getElem!_pos a j h, Array.getElem_map]
+
+theorem array_ext! {α : Type} [Inhabited α] (a b : Array α) (hs : a.size = b.size) (h : ∀ j, j < a.size → a[j]! = b[j]!) : a = b := by
+  apply Array.ext hs
+  intro j h1 h2
+  have := h j h1
+  rwa [getElem!_pos a j h1, getElem!_pos b j h2] at this
+
+/-- filling an array entry by entry: `ds[i] = g i` for `i = 0 … n-1` -/
+theorem fill_fold {α : Type} [Inhabited α] (n : Nat) (g : Nat → α) (init : Array α) (hi : init.size = n) :
+    ∀ k, k ≤ n → ((List.range k).foldl (fun (ds : Array α) i => ds.set! i (g i)) init).size = n ∧
+      ∀ j, j < k → ((List.range k).foldl (fun (ds : Array α) i => ds.set! i (g i)) init)[j]! = g j := by
+  intro k
+  induction k with
+  | zero => intro _; exact ⟨hi, fun j hj => by omega⟩
+  | succ k ih =>
+    intro hk
+    obtain ⟨h1, h2⟩ := ih (by omega)
+    rw [foldl_range_succ]
+    refine ⟨by rw [size_set!']; exact h1, ?_⟩
+    intro j hj
+    rw [get_set!' _ _ _ _ (by omega)]
+    by_cases hjk : j = k
+    · rw [if_pos hjk, hjk]
+    · rw [if_neg hjk]; exact h2 j (by omega)
+
+theorem fill_fold_eq_map {α β : Type} [Inhabited α] [Inhabited β] (xs : Array α) (g : α → β) (init : Array β) (hi : init.size = xs.size) :
+    (List.range xs.size).foldl (fun (ds : Array β) i => ds.set! i (g xs[i]!)) init = xs.map g := by
+  obtain ⟨h1, h2⟩ := fill_fold xs.size (fun i => g xs[i]!) init hi xs.size (Nat.le_refl _)
+  apply array_ext! _ _ (by rw [h1]; simp)
+  intro j hj
+  rw [h2 j (by omega), getElem!_map' g xs j (by omega)]
+
+/-! `Point.collect` -/
+def collectStep {α : Type} (acc : Res (Array α)) (r : Res α) : Res (Array α) :=
+  match acc, r with
+  | .ok a, .ok x => .ok (a.push x)
+  | .ok _, .err => .err
+  | .ok _, .panic c => .panic c
+  | e, _ => e
+
+theorem collect_def {α : Type} (xs : List (Res α)) : Point.collect xs = xs.foldl collectStep (.ok #[]) := rfl
+
+theorem collect_fail_absorb {α : Type} (fl : Fail) (l : List (Res α)) : l.foldl collectStep (fl.toRes) = fl.toRes := by
+  induction l with
+  | nil => rfl
+  | cons r l ih =>
+    rw [List.foldl_cons]
+    have : collectStep (fl.toRes : Res (Array α)) r = fl.toRes := by cases fl <;> rfl
+    rw [this, ih]
+
+theorem collect_ok_list {α β : Type} (R : α → Res β) (g : α → β) (l : List α) (h : ∀ x, x ∈ l → R x = .ok (g x)) (acc : Array β) :
+    (l.map R).foldl collectStep (.ok acc) = .ok (acc ++ (l.map g).toArray) := by
+  induction l generalizing acc with
+  | nil => simp
+  | cons x l ih =>
+    rw [List.map_cons, List.foldl_cons, h x (List.mem_cons_self ..)]
+    show List.foldl collectStep (.ok (acc.push (g x))) _ = _
+    rw [ih (fun y hy => h y (List.mem_cons_of_mem _ hy))]
+    simp
+
+theorem collect_ok' {α β : Type} [Inhabited α] (R : α → Res β) (g : α → β) (xs : Array α)
+    (h : ∀ i, i < xs.size → R xs[i]! = .ok (g xs[i]!)) : Point.collect (xs.toList.map R) = .ok (xs.map g) := by
+  rw [collect_def, collect_ok_list R g xs.toList ?_ #[]]
+  · congr 1
+    apply Array.ext'
+    simp
+  · intro x hx
+    obtain ⟨i, hi, rfl⟩ := List.mem_iff_getElem.mp hx
+    have hi' : i < xs.size := by simpa using hi
+    have := h i hi'
+    rw [getElem!_pos xs i hi'] at this
+    simpa using this
+
+theorem collect_fail' {α β : Type} [Inhabited α] (R : α → Res β) (g : α → β) (xs : Array α) (m : Nat) (hm : m < xs.size) (fl : Fail)
+    (h : ∀ i, i < m → R xs[i]! = .ok (g xs[i]!)) (hf : R xs[m]! = fl.toRes) : Point.collect (xs.toList.map R) = fl.toRes := by
+  have hsplit : xs.toList = xs.toList.take m ++ xs[m]! :: xs.toList.drop (m+1) := by
+    rw [getElem!_pos xs m hm]
+    have : xs[m] = xs.toList[m]'(by simpa using hm) := by simp
+    rw [this, List.getElem_cons_drop, List.take_append_drop]
+  rw [collect_def, hsplit, List.map_append, List.foldl_append, collect_ok_list R g _ ?_ #[], List.map_cons, List.foldl_cons, hf]
+  · have : collectStep (.ok (#[] ++ (List.map g (List.take m xs.toList)).toArray)) (fl.toRes : Res β) = fl.toRes := by cases fl <;> rfl
+    rw [this, collect_fail_absorb]
+  · intro x hx
+    obtain ⟨i, hi, rfl⟩ := List.mem_iff_getElem.mp hx
+    have hi' : i < m := by simp at hi; omega
+    have := h i hi'
+    rw [getElem!_pos xs i (by omega)] at this
+    simpa using this
+
+/-- either every element is accepted, or there is a first one that is not -/
+theorem first_fail {α β : Type} [Inhabited α] (R : α → Res β) (xs : Array α) : ∀ n, n ≤ xs.size →
+    (∀ i, i < n → ∃ v, R xs[i]! = .ok v) ∨ ∃ m fl, m < n ∧ (∀ i, i < m → ∃ v, R xs[i]! = .ok v) ∧ R xs[m]! = Fail.toRes fl := by
+  intro n
+  induction n with
+  | zero => intro _; exact .inl (fun i hi => by omega)
+  | succ n ih =>
+    intro hn
+    rcases ih (by omega) with h | ⟨m, fl, hm, h1, h2⟩
+    · rcases Res.ok_or_fail (R xs[n]!) with ⟨v, hv⟩ | ⟨fl, hfl⟩
+      · left
+        intro i hi
+        by_cases hin : i = n
+        · exact ⟨v, by rw [hin, hv]⟩
+        · exact h i (by omega)
+      · exact .inr ⟨n, fl, by omega, h, hfl⟩
+    · exact .inr ⟨m, fl, by omega, h1, h2⟩
+
+/-- the loop `for i := range ds { ds[i] = R(xs[i]) }` is `Point.collect` -/
+theorem rangeLoop_collect {β : Type} [Inhabited β] (R : W4 → Res β) (xs : Array W4) (n : Nat) (hx : xs.size = n) (hn : n < 2 ^ 63)
+    (init : Array β) (hi : init.size = n) :
+    rangeLoop n (fun i (ds : Array β) k => Res.bind (R xs[i]!) fun d => k (ds.set! i d)) init
+      = Res.bind (Point.collect (xs.toList.map R)) fun ds => .ok (rangeCtr n, ds) := by
+  subst hx
+  let g : W4 → β := fun x => (R x).getD default
+  have hg : ∀ x v, R x = .ok v → R x = .ok (g x) := by
+    intro x v hv; show R x = .ok ((R x).getD default); rw [hv]; rfl
+  rcases first_fail R xs xs.size (Nat.le_refl _) with h | ⟨m, fl, hm, h1, h2⟩
+  · have h' : ∀ i, i < xs.size → R xs[i]! = .ok (g xs[i]!) := fun i hi => by obtain ⟨v, hv⟩ := h i hi; exact hg _ v hv
+    rw [collect_ok' R g xs h', Res.bind_ok]
+    have := (rangeLoop_pure xs.size hn (fun i (ds : Array β) k => Res.bind (R xs[i]!) fun d => k (ds.set! i d))
+      (fun ds i => ds.set! i (g xs[i]!)) (fun _ _ => True)
+      (by
+        intro i hi s _
+        refine ⟨?_, trivial⟩
+        intro k
+        show Res.bind (R xs[i]!) _ = _
+        rw [h' i hi, Res.bind_ok]) init trivial).1
+    rw [this, fill_fold_eq_map xs g init hi]
+  · have h' : ∀ i, i < m → R xs[i]! = .ok (g xs[i]!) := fun i hi => by obtain ⟨v, hv⟩ := h1 i hi; exact hg _ v hv
+    rw [collect_fail' R g xs m hm fl h' h2, Fail.bind]
+    unfold rangeLoop
+    exact Loop.iter_fail (rangeStep xs.size _) (fun k s => s.1 = rangeCtr k) m fl
+      (by
+        intro k hk s hs
+        obtain ⟨c, st⟩ := s
+        simp only at hs
+        subst hs
+        refine ⟨(k, st.set! k (g xs[k]!)), ?_, ?_⟩
+        · rw [rangeStep_enter xs.size hn _ k (by omega) st]
+          show Res.bind (R xs[k]!) _ = _
+          rw [h' k hk, Res.bind_ok]
+        · show k = rangeCtr (k+1)
+          unfold rangeCtr; simp)
+      (by
+        intro s hs
+        obtain ⟨c, st⟩ := s
+        simp only at hs
+        subst hs
+        rw [rangeStep_enter xs.size hn _ m hm st]
+        show Res.bind (R xs[m]!) _ = _
+        rw [h2, Fail.bind])
+      0 _ (by omega) rfl (xs.size + 2) (by omega)
+
+
+/-! #### `MultiScalarMult` and the model -/
+
+/-- the model's `addAll` -/
+def msmAddAll (tables : Array (Array Cached)) (digits : Array (Array Int)) (v : P3) (i : Nat) : P3 :=
+  (List.range tables.size).foldl (fun v j =>
+    let multiple := Point.projSelect tables[j]! (digits[j]!)[i]!
+    Point.fromP1xP1 (Point.P1xP1.add v multiple)) v
+
+/-- one iteration of the model's main loop -/
+def msmModelStep (tables : Array (Array Cached)) (digits : Array (Array Int)) (st : P3 × P2) (k : Nat) : P3 × P2 :=
+  let i := 62 - k
+  let tmp2 := st.2
+  let tmp1 := Point.P1xP1.double tmp2
+  let tmp2 := Point.P2.fromP1xP1 tmp1
+  let tmp1 := Point.P1xP1.double tmp2
+  let tmp2 := Point.P2.fromP1xP1 tmp1
+  let tmp1 := Point.P1xP1.double tmp2
+  let tmp2 := Point.P2.fromP1xP1 tmp1
+  let tmp1 := Point.P1xP1.double tmp2
+  let v := Point.fromP1xP1 tmp1
+  let v := msmAddAll tables digits v i
+  (v, Point.P2.fromP3 v)
+
+theorem multiScalarMultDigits_fold (digits : Array (Array Int)) (points : Array P3) :
+    Point.multiScalarMultDigits digits points =
+      ((List.range 63).foldl (msmModelStep (points.map Point.projTable) digits)
+        (msmAddAll (points.map Point.projTable) digits Point.identity 63,
+         Point.P2.fromP3 (msmAddAll (points.map Point.projTable) digits Point.identity 63))).1 := by
+  unfold Point.multiScalarMultDigits
+  simp only []
+  rfl
+
+theorem foldl_fst {α β γ : Type} (F : α × β → γ → α × β) (G : α → γ → α) (h : ∀ s j, (F s j).1 = G s.1 j) (l : List γ) (s : α × β) :
+    (l.foldl F s).1 = l.foldl G s.1 := by
+  induction l generalizing s with
+  | nil => rfl
+  | cons x l ih => rw [List.foldl_cons, List.foldl_cons, ih, h]
+
+/-- the loop `for j := range tables { SelectInto; Add; fromP1xP1 }` computes the model's `addAll` in `v` -/
+theorem msmAddLoop_eq (n : Nat) (hn : n < 2 ^ 63) (tables : Array (Array Cached)) (ht : tables.size = n) (digits : Array (Array Int))
+    (hd : ∀ j : Nat, DigitsI8 digits[j]!) (i : Nat) (hi : i < 64) (s0 : P3 × Cached × P1xP1) :
+    ∃ m t, rangeLoop n (fun j st k => Res.bind (Res.guard (decide (i < 64)) "index") fun _ => msmAddStep tables digits i j st k) s0
+        = .ok (rangeCtr n, msmAddAll tables digits s0.1 i, m, t) ∧
+      rangeLoop n (msmAddStep tables digits i) s0 = .ok (rangeCtr n, msmAddAll tables digits s0.1 i, m, t) := by
+  let f : P3 × Cached × P1xP1 → Nat → P3 × Cached × P1xP1 := fun s j =>
+    (Point.fromP1xP1 (Point.P1xP1.add s.1 (projSelectI8 tables[j]! digits[j]![i]!)), projSelectI8 tables[j]! digits[j]![i]!,
+      Point.P1xP1.add s.1 (projSelectI8 tables[j]! digits[j]![i]!))
+  have h1 := (rangeLoop_pure n hn (fun j st k => Res.bind (Res.guard (decide (i < 64)) "index") fun _ => msmAddStep tables digits i j st k)
+    f (fun _ _ => True) (by
+      intro j _ s _
+      refine ⟨?_, trivial⟩
+      intro k
+      simp only [hi, decide_true, Res.guard_true, Res.bind_ok]
+      rfl) s0 trivial).1
+  have h2 := (rangeLoop_pure n hn (msmAddStep tables digits i) f (fun _ _ => True) (by
+      intro j _ s _
+      exact ⟨fun k => rfl, trivial⟩) s0 trivial).1
+  have hfst : ((List.range n).foldl f s0).1 = msmAddAll tables digits s0.1 i := by
+    unfold msmAddAll
+    rw [ht]
+    apply foldl_fst
+    intro s j
+    show Point.fromP1xP1 (Point.P1xP1.add s.1 (projSelectI8 tables[j]! digits[j]![i]!)) = _
+    rw [projSelectI8_eq _ _ (hd j i).1 (hd j i).2]
+  refine ⟨((List.range n).foldl f s0).2.1, ((List.range n).foldl f s0).2.2, ?_, ?_⟩
+  · rw [h1, ← hfst]
+  · rw [h2, ← hfst]
+
+theorem sle_small' (i : Nat) (h : i < 2 ^ 63) : S.le 64 0 i = true := by
+  unfold S.le S.toInt
+  have h1 : (0 : Nat) < 2 ^ (64 - 1) := by omega
+  have h2 : i < 2 ^ (64 - 1) := by omega
+  simp only [h1, h2, if_true]
+  apply decide_eq_true; omega
+
+theorem sub1' (i : Nat) (h : i < 2 ^ 63) : U.sub 64 i 1 = if i = 0 then 2 ^ 64 - 1 else i - 1 := by
+  unfold U.sub
+  split <;> omega
+
+theorem msmDigits_eq (points : Array P3) (hn : points.size < 2 ^ 63) (digits : Array (Array Int)) (hd : ∀ j : Nat, DigitsI8 digits[j]!) :
+    msmDigits points.size (points.map Point.projTable) digits = .ok (Point.multiScalarMultDigits digits points) := by
+  have ht : (points.map Point.projTable).size = points.size := by simp
+  generalize hT : points.map Point.projTable = tables at ht
+  unfold msmDigits
+  obtain ⟨m0, t0, _, h0⟩ := msmAddLoop_eq points.size hn tables ht digits hd 63 (by omega) (Point.identity, zeroCached, zeroP1xP1)
+  rw [h0, Res.bind_ok]
+  let st0 : P3 × P2 := (msmAddAll tables digits Point.identity 63, Point.P2.fromP3 (msmAddAll tables digits Point.identity 63))
+  have key := Loop.iter_inv (msmStep points.size tables digits)
+    (fun k s => s.1 = (if k < 63 then 62 - k else 2 ^ 64 - 1) ∧
+      (s.2.1, s.2.2.2.2) = (List.range k).foldl (msmModelStep tables digits) st0)
+    (fun e => e.2.1 = ((List.range 63).foldl (msmModelStep tables digits) st0).1) 63
+    (by
+      intro k hk s ⟨h1, h2⟩
+      obtain ⟨i, v, mm, t1, t2⟩ := s
+      simp only at h1 h2
+      rw [if_pos hk] at h1
+      subst h1
+      unfold msmStep
+      simp only [sle_small' (62 - k) (by omega), if_true]
+      obtain ⟨m', t', hl, _⟩ := msmAddLoop_eq points.size hn tables ht digits hd (62 - k) (by omega)
+        (Point.fromP1xP1 (Point.P1xP1.double (Point.P2.fromP1xP1 (Point.P1xP1.double (Point.P2.fromP1xP1 (Point.P1xP1.double
+          (Point.P2.fromP1xP1 (Point.P1xP1.double t2))))))), mm,
+          Point.P1xP1.double (Point.P2.fromP1xP1 (Point.P1xP1.double (Point.P2.fromP1xP1 (Point.P1xP1.double
+          (Point.P2.fromP1xP1 (Point.P1xP1.double t2)))))))
+      rw [hl, Res.bind_ok]
+      refine ⟨_, rfl, ?_, ?_⟩
+      · show U.sub 64 (62 - k) 1 = _
+        rw [sub1' _ (by omega)]
+        by_cases hk2 : k + 1 < 63
+        · rw [if_pos hk2, if_neg (by omega)]; omega
+        · rw [if_neg hk2, if_pos (by omega)]
+      · rw [foldl_range_succ, ← h2]
+        rfl)
+    (by
+      intro s ⟨h1, h2⟩
+      rw [if_neg (by omega)] at h1
+      refine ⟨s, ?_, ?_⟩
+      · unfold msmStep
+        rw [h1, sle_minus1]
+        rfl
+      · rw [← h2])
+    0 (62, msmAddAll tables digits Point.identity 63, m0, t0, Point.P2.fromP3 (msmAddAll tables digits Point.identity 63))
+    (by omega) ⟨rfl, rfl⟩ 64 (by omega)
+  obtain ⟨e, he, hp⟩ := key
+  rw [he, Res.bind_ok, hp, multiScalarMultDigits_fold, hT]
+
+/-- the loop `for i := range tables { tables[i].FromP3(points[i]) }` -/
+theorem tablesLoop_eq (points : Array P3) (hn : points.size < 2 ^ 63) (T : P3 → Array Cached) (init : Array (Array Cached))
+    (hi : init.size = points.size) :
+    rangeLoop points.size (fun i (tabs : Array (Array Cached)) k => k (tabs.set! i (T points[i]!))) init
+      = .ok (rangeCtr points.size, points.map T) := by
+  have := (rangeLoop_pure points.size hn (fun i (tabs : Array (Array Cached)) k => k (tabs.set! i (T points[i]!)))
+    (fun tabs i => tabs.set! i (T points[i]!)) (fun _ _ => True) (fun i _ s _ => ⟨fun k => rfl, trivial⟩) init trivial).1
+  rw [this, fill_fold_eq_map points T init hi]
+
+theorem multiScalarMult_bind (scalars : Array W4) (points : Array P3) :
+    Point.multiScalarMult scalars points =
+      Res.bind (Point.collect (scalars.toList.map Scalar.signedRadix16)) fun ds => .ok (Point.multiScalarMultDigits ds points) := by
+  obtain ⟨F, hF, h⟩ : ∃ F : Array W4 → Array P3 → Res P3, @Point.multiScalarMult = F ∧
+      ∀ ss ps, F ss ps = Res.bind (Point.collect (ss.toList.map Scalar.signedRadix16)) fun ds => .ok (Point.multiScalarMultDigits ds ps) := by
+    refine ⟨_, by delta Point.multiScalarMult; exact rfl, ?_⟩
+    intro ss ps
+    generalize Point.collect (ss.toList.map Scalar.signedRadix16) = c
+    cases c <;> rfl
+  rw [hF]; exact h scalars points
+
+theorem Point_MultiScalarMult_eq (v : P3) (scalars : Array W4) (points : Array P3) (hn : points.size < 2 ^ 63)
+    (hd : ∀ ds, Point.collect (scalars.toList.map Scalar.signedRadix16) = .ok ds → ∀ j : Nat, DigitsI8 ds[j]!) :
+    Point_MultiScalarMult v scalars points =
+      if scalars.size != points.size then .panic "length" else Point.multiScalarMult scalars points := by
+  unfold Point_MultiScalarMult
+  by_cases hs : scalars.size = points.size
+  · have hne : (scalars.size != points.size) = false := by simp [hs]
+    simp only [hne, Bool.false_eq_true, if_false]
+    rw [tablesLoop_eq points hn Point.projTable _ (by simp), Res.bind_ok, multiScalarMult_bind]
+    simp only [Scalar_signedRadix16_eq]
+    rw [rangeLoop_collect Scalar.signedRadix16 scalars points.size hs hn _ (by simp)]
+    generalize Point.collect (scalars.toList.map Scalar.signedRadix16) = c at hd
+    cases c with
+    | err => rfl
+    | panic c => rfl
+    | ok ds =>
+      simp only [Res.bind_ok]
+      exact msmDigits_eq points hn ds (hd ds rfl)
+  · have hne : (scalars.size != points.size) = true := by simp [hs]
+    simp only [hne, if_true]
+
+/-! #### `VarTimeMultiScalarMult` and the model -/
+
+/-- the model's inner loop over the terms, for the coefficient `i` -/
+def vtmModelInner (tables : Array (Array Cached)) (nafs : Array (Array Int)) (i : Nat) (tmp1 : P1xP1) (j : Nat) : P1xP1 :=
+  let dgt : Int := (nafs[j]!)[i]!
+  if dgt > 0 then
+    let v := Point.fromP1xP1 tmp1
+    Point.P1xP1.add v (Point.nafSelect tables[j]! dgt)
+  else if dgt < 0 then
+    let v := Point.fromP1xP1 tmp1
+    Point.P1xP1.sub v (Point.nafSelect tables[j]! (Scalar.wrap8 (-dgt)))
+  else tmp1
+
+def vtmModelStep (tables : Array (Array Cached)) (nafs : Array (Array Int)) (tmp2 : P2) (k : Nat) : P2 :=
+  let i := 255 - k
+  let tmp1 := Point.P1xP1.double tmp2
+  let tmp1 := (List.range nafs.size).foldl (vtmModelInner tables nafs i) tmp1
+  Point.P2.fromP1xP1 tmp1
+
+theorem varTimeMultiDigits_fold (nafs : Array (Array Int)) (points : Array P3) :
+    Point.varTimeMultiDigits nafs points =
+      Point.fromP2 ((List.range 256).foldl (vtmModelStep (points.map Point.naf5Table) nafs) Point.P2.zero) := by
+  unfold Point.varTimeMultiDigits
+  simp only []
+  rfl
+
+theorem foldl_proj {σ τ γ : Type} (π : σ → τ) (F : σ → γ → σ) (G : τ → γ → τ) (h : ∀ s j, π (F s j) = G (π s) j) (l : List γ) (s : σ) :
+    π (l.foldl F s) = l.foldl G (π s) := by
+  induction l generalizing s with
+  | nil => rfl
+  | cons x l ih => rw [List.foldl_cons, List.foldl_cons, ih, h]
+
+theorem vtmAddLoop_eq (n : Nat) (hn : n < 2 ^ 63) (tables : Array (Array Cached)) (nafs : Array (Array Int)) (hs : nafs.size = n)
+    (hd : ∀ j : Nat, NafRange 8 nafs[j]!) (i : Nat) (hi : i < 256) (s0 : P3 × Cached × P1xP1) :
+    ∃ v m, rangeLoop n (vtmAddStep tables nafs i) s0 =
+      .ok (rangeCtr n, v, m, (List.range nafs.size).foldl (vtmModelInner tables nafs i) s0.2.2) := by
+  let f : P3 × Cached × P1xP1 → Nat → P3 × Cached × P1xP1 := fun s j =>
+    if nafs[j]![i]! > 0 then
+      (Point.fromP1xP1 s.2.2, Point.nafSelect tables[j]! nafs[j]![i]!,
+        Point.P1xP1.add (Point.fromP1xP1 s.2.2) (Point.nafSelect tables[j]! nafs[j]![i]!))
+    else if nafs[j]![i]! < 0 then
+      (Point.fromP1xP1 s.2.2, Point.nafSelect tables[j]! (Scalar.wrap8 (-nafs[j]![i]!)),
+        Point.P1xP1.sub (Point.fromP1xP1 s.2.2) (Point.nafSelect tables[j]! (Scalar.wrap8 (-nafs[j]![i]!))))
+    else s
+  have h1 := (rangeLoop_pure n hn (vtmAddStep tables nafs i) f (fun _ _ => True) (by
+      intro j _ s _
+      refine ⟨?_, trivial⟩
+      intro k
+      have hr := hd j i hi
+      unfold vtmAddStep
+      simp only [hi, decide_true, Res.guard_true, Res.bind_ok]
+      show _ = k (if nafs[j]![i]! > 0 then _ else if nafs[j]![i]! < 0 then _ else s)
+      by_cases h1 : nafs[j]![i]! > 0
+      · simp only [h1, decide_true, if_true, nafSelectI8_eq 8 tables[j]! _ h1 (by omega) (by omega), Res.bind_ok]
+      · by_cases h2 : nafs[j]![i]! < 0
+        · simp only [h1, h2, decide_true, decide_false, if_true, Bool.false_eq_true, if_false,
+            neg_select 8 (by omega) tables[j]! _ h2 (by omega), Res.bind_ok]
+        · simp only [h1, h2, decide_false, Bool.false_eq_true, if_false]) s0 trivial).1
+  have hthd : ((List.range n).foldl f s0).2.2 = (List.range nafs.size).foldl (vtmModelInner tables nafs i) s0.2.2 := by
+    rw [hs]
+    apply foldl_proj (fun s : P3 × Cached × P1xP1 => s.2.2)
+    intro s j
+    show (if nafs[j]![i]! > 0 then _ else if nafs[j]![i]! < 0 then _ else s).2.2 = vtmModelInner tables nafs i s.2.2 j
+    unfold vtmModelInner
+    by_cases h1 : nafs[j]![i]! > 0
+    · simp only [h1, if_true]
+    · by_cases h2 : nafs[j]![i]! < 0
+      · simp only [h1, h2, if_true, if_false]
+      · simp only [h1, h2, if_false]
+  refine ⟨((List.range n).foldl f s0).1, ((List.range n).foldl f s0).2.1, ?_⟩
+  rw [h1, ← hthd]
+
+theorem vtmDigits_eq (v : P3) (points : Array P3) (hn : points.size < 2 ^ 63) (nafs : Array (Array Int)) (hs : nafs.size = points.size)
+    (hd : ∀ j : Nat, NafRange 8 nafs[j]!) :
+    vtmDigits points.size v (points.map Point.naf5Table) nafs = .ok (Point.varTimeMultiDigits nafs points) := by
+  generalize hT : points.map Point.naf5Table = tables
+  unfold vtmDigits
+  have key := Loop.iter_inv (vtmStep points.size tables nafs)
+    (fun k s => s.1 = (if k < 256 then 255 - k else 2 ^ 64 - 1) ∧
+      s.2.2.2.2 = (List.range k).foldl (vtmModelStep tables nafs) Point.P2.zero)
+    (fun e => e.2.2.2.2 = (List.range 256).foldl (vtmModelStep tables nafs) Point.P2.zero) 256
+    (by
+      intro k hk s ⟨h1, h2⟩
+      obtain ⟨i, vv, mm, t1, t2⟩ := s
+      simp only at h1 h2
+      rw [if_pos hk] at h1
+      subst h1
+      unfold vtmStep
+      simp only [sle_small' (255 - k) (by omega), if_true]
+      obtain ⟨v', m', hl⟩ := vtmAddLoop_eq points.size hn tables nafs hs hd (255 - k) (by omega) (vv, mm, Point.P1xP1.double t2)
+      rw [hl, Res.bind_ok]
+      refine ⟨_, rfl, ?_, ?_⟩
+      · show U.sub 64 (255 - k) 1 = _
+        rw [sub1' _ (by omega)]
+        by_cases hk2 : k + 1 < 256
+        · rw [if_pos hk2, if_neg (by omega)]; omega
+        · rw [if_neg hk2, if_pos (by omega)]
+      · rw [foldl_range_succ, ← h2]
+        rfl)
+    (by
+      intro s ⟨h1, h2⟩
+      rw [if_neg (by omega)] at h1
+      refine ⟨s, ?_, h2⟩
+      unfold vtmStep
+      rw [h1, sle_minus1]
+      rfl)
+    0 (255, v, zeroCached, zeroP1xP1, Point.P2.zero) (by omega) ⟨rfl, rfl⟩ 257 (by omega)
+  obtain ⟨e, he, hp⟩ := key
+  rw [he, Res.bind_ok, hp, varTimeMultiDigits_fold, hT]
+
+theorem collect_size_list {β : Type} (l : List (Res β)) : ∀ (acc ds : Array β),
+    l.foldl collectStep (.ok acc) = .ok ds → ds.size = acc.size + l.length := by
+  induction l with
+  | nil => intro acc ds h; cases h; rfl
+  | cons r l ih =>
+    intro acc ds h
+    rw [List.foldl_cons] at h
+    cases r with
+    | ok x =>
+      have := ih (acc.push x) ds h
+      simp at this ⊢; omega
+    | err =>
+      have e : collectStep (.ok acc) (.err : Res β) = (Fail.err).toRes := rfl
+      rw [e, collect_fail_absorb] at h; cases h
+    | panic c =>
+      have e : collectStep (.ok acc) (.panic c : Res β) = (Fail.panic c).toRes := rfl
+      rw [e, collect_fail_absorb] at h; cases h
+
+theorem collect_size {α β : Type} (R : α → Res β) (xs : Array α) (ds : Array β)
+    (h : Point.collect (xs.toList.map R) = .ok ds) : ds.size = xs.size := by
+  rw [collect_def] at h
+  have := collect_size_list _ _ _ h
+  simpa using this
+
+theorem varTimeMultiScalarMult_bind (scalars : Array W4) (points : Array P3) :
+    Point.varTimeMultiScalarMult scalars points =
+      Res.bind (Point.collect (scalars.toList.map (Scalar.nonAdjacentForm · 5))) fun ds => .ok (Point.varTimeMultiDigits ds points) := by
+  obtain ⟨F, hF, h⟩ : ∃ F : Array W4 → Array P3 → Res P3, @Point.varTimeMultiScalarMult = F ∧
+      ∀ ss ps, F ss ps = Res.bind (Point.collect (ss.toList.map (Scalar.nonAdjacentForm · 5))) fun ds => .ok (Point.varTimeMultiDigits ds ps) := by
+    refine ⟨_, by delta Point.varTimeMultiScalarMult; exact rfl, ?_⟩
+    intro ss ps
+    generalize Point.collect (ss.toList.map (Scalar.nonAdjacentForm · 5)) = c
+    cases c <;> rfl
+  rw [hF]; exact h scalars points
+
+theorem Point_VarTimeMultiScalarMult_eq (v : P3) (scalars : Array W4) (points : Array P3) (hn : points.size < 2 ^ 63)
+    (hd : ∀ ds, Point.collect (scalars.toList.map (Scalar.nonAdjacentForm · 5)) = .ok ds → ∀ j : Nat, NafRange 8 ds[j]!) :
+    Point_VarTimeMultiScalarMult v scalars points =
+      if scalars.size != points.size then .panic "length" else Point.varTimeMultiScalarMult scalars points := by
+  unfold Point_VarTimeMultiScalarMult
+  by_cases hs : scalars.size = points.size
+  · have hne : (scalars.size != points.size) = false := by simp [hs]
+    simp only [hne, Bool.false_eq_true, if_false]
+    rw [tablesLoop_eq points hn Point.naf5Table _ (by simp), Res.bind_ok, varTimeMultiScalarMult_bind]
+    simp only [Scalar_nonAdjacentForm_eq]
+    rw [rangeLoop_collect (Scalar.nonAdjacentForm · 5) scalars points.size hs hn _ (by simp)]
+    have hsz := collect_size (Scalar.nonAdjacentForm · 5) scalars
+    generalize Point.collect (scalars.toList.map (Scalar.nonAdjacentForm · 5)) = c at hd hsz
+    cases c with
+    | err => rfl
+    | panic c => rfl
+    | ok ds =>
+      simp only [Res.bind_ok]
+      exact vtmDigits_eq v points hn ds (by rw [hsz ds rfl, hs]) (hd ds rfl)
+  · have hne : (scalars.size != points.size) = true := by simp [hs]
+    simp only [hne, if_true]
+/-! ### field/fe.go: `Element.bytes`, `Bytes`, `IsNegative`
+
+The callers of `Bytes` / `IsNegative` keep the primitives `Fe.bytes` / `Fe.isNegative` (hand-written in `Impl/Fe.lean`);
+the three functions are also translated on their own, and `field_Element_Bytes_eq` / `field_Element_IsNegative_eq` show
+that the primitives are what the Go code computes (above the kernel `reduce` and `binary.LittleEndian.PutUint64`). -/
+
+/-- `for i, bb := range buf { out[base+i] |= bb }` for the indices `i` of the list (the loop is unrolled by the
+translator, up to the `break` at `base+i >= 32`) -/
+def orBytesSsa (out : Bytes) (base : Nat) (buf : Bytes) : List Nat → Bytes
+  | [] => out
+  | j :: js => orBytesSsa (Bin.orAt out (base + j) buf[j]!) base buf js
+
+def field_Element_bytes (v : Fe) (out : Bytes) : Bytes :=
+  let t := Fe.reduce v
+  let out := orBytesSsa out 0 (Fe.putLE64A (U.shl 64 t.l0 0)) (List.range' 0 8)
+  let out := orBytesSsa out 6 (Fe.putLE64A (U.shl 64 t.l1 3)) (List.range' 0 8)
+  let out := orBytesSsa out 12 (Fe.putLE64A (U.shl 64 t.l2 6)) (List.range' 0 8)
+  let out := orBytesSsa out 19 (Fe.putLE64A (U.shl 64 t.l3 1)) (List.range' 0 8)
+  orBytesSsa out 25 (Fe.putLE64A (U.shl 64 t.l4 4)) (List.range' 0 7)
+
+def field_Element_Bytes (v : Fe) : Bytes := field_Element_bytes v (Bin.zeros 32)
+def field_Element_IsNegative (v : Fe) : Nat := (Fe.bytes v)[0]! &&& 1
+
+theorem orBytesSsa_size (base : Nat) (buf : Bytes) (js : List Nat) : ∀ out : Bytes, (orBytesSsa out base buf js).size = out.size := by
+  induction js with
+  | nil => intro out; rfl
+  | cons j js ih => intro out; unfold orBytesSsa; rw [ih]; simp [Bin.orAt]
+
+theorem orBytes_fold (B : List Nat) (base : Nat) : ∀ (l : List Nat) (k : Nat) (out : Bytes), l = B.drop k →
+    ((l.zipIdx k).foldl (fun (out : Bytes) (x : Nat × Nat) =>
+        match x with
+        | (bb, j) =>
+          let off := base + j
+          if off ≥ out.size then out else out.set! off (out[off]! ||| bb)) out)
+      = orBytesSsa out base B.toArray (List.range' k (min l.length (out.size - (base + k)))) := by
+  intro l
+  induction l with
+  | nil => intro k out _; rfl
+  | cons x l ih =>
+    intro k out hl
+    have hk : k < B.length := by
+      have := congrArg List.length hl
+      simp at this; omega
+    have hx : x = B[k]'hk := by
+      have := List.drop_eq_getElem_cons hk
+      rw [this] at hl
+      exact (List.cons.inj hl).1
+    have hl' : l = B.drop (k+1) := by
+      have := List.drop_eq_getElem_cons hk
+      rw [this] at hl
+      exact (List.cons.inj hl).2
+    rw [List.zipIdx_cons, List.foldl_cons]
+    simp only []
+    by_cases hin : base + k ≥ out.size
+    · rw [if_pos hin, ih (k+1) out hl']
+      have e1 : min l.length (out.size - (base + (k + 1))) = 0 := by omega
+      have e2 : min (x :: l).length (out.size - (base + k)) = 0 := by omega
+      rw [e1, e2]
+      rfl
+    · rw [if_neg hin, ih (k+1) _ hl']
+      have e : min (x :: l).length (out.size - (base + k)) = min l.length (out.size - (base + (k+1))) + 1 := by
+        simp only [List.length_cons]; omega
+      rw [e, List.range'_succ]
+      have hb : B.toArray[k]! = x := by rw [hx]; simp [hk]
+      conv => rhs; unfold orBytesSsa
+      rw [hb]
+      simp [Bin.orAt]
+
+theorem orBytesAt_eq (out : Bytes) (base : Nat) (w : Nat) (n : Nat) (hn : n = min 8 (out.size - base)) :
+    Fe.orBytesAt out base (Fe.putLE64 w) = orBytesSsa out base (Fe.putLE64A w) (List.range' 0 n) := by
+  unfold Fe.orBytesAt
+  have := orBytes_fold (Fe.putLE64 w) base (Fe.putLE64 w) 0 out rfl
+  have hl : (Fe.putLE64 w).length = 8 := by simp [Fe.putLE64]
+  rw [hl, Nat.add_zero, ← hn] at this
+  exact this
+
+theorem field_Element_Bytes_eq (v : Fe) : field_Element_Bytes v = Fe.bytes v := by
+  unfold field_Element_Bytes field_Element_bytes Fe.bytes
+  simp only [List.zipIdx_cons, List.zipIdx_nil, List.foldl_cons, List.foldl_nil, Nat.zero_add, Nat.reduceMul, Nat.reduceDiv,
+    Nat.reduceMod, Nat.reduceAdd]
+  have h0 : (Bin.zeros 32).size = 32 := by simp [Bin.zeros]
+  rw [orBytesAt_eq _ 0 _ 8 (by rw [h0]; decide)]
+  rw [orBytesAt_eq _ 6 _ 8 (by rw [orBytesSsa_size, h0]; decide)]
+  rw [orBytesAt_eq _ 12 _ 8 (by rw [orBytesSsa_size, orBytesSsa_size, h0]; decide)]
+  rw [orBytesAt_eq _ 19 _ 8 (by rw [orBytesSsa_size, orBytesSsa_size, orBytesSsa_size, h0]; decide)]
+  rw [orBytesAt_eq _ 25 _ 7 (by rw [orBytesSsa_size, orBytesSsa_size, orBytesSsa_size, orBytesSsa_size, h0]; decide)]
+
+theorem field_Element_IsNegative_eq (v : Fe) : field_Element_IsNegative v = Fe.isNegative v := rfl
+/-! ### tables.go: `nafLookupTable8.FromP3` (63 iterations, kept as a loop) -/
+
+/-- state of the loop: `i`, `v.points`, `tmpP3`, `tmpP1xP1` -/
+abbrev Naf8State := Nat × Array AffineCached × P3 × P1xP1
+
+def naf8Step (q2 : P3) (s : Naf8State) : Res (Naf8State × Bool) :=
+  if S.lt 64 s.1 63 then
+    Res.bind (Res.guard (decide (U.add 64 s.1 1 < 64)) "index") fun _ =>
+    Res.bind (Res.guard (decide (s.1 < 64)) "index") fun _ =>
+    let tmp1 := Point.P1xP1.addAffine q2 s.2.1[s.1]!
+    let tmp3 := Point.fromP1xP1 tmp1
+    .ok ((U.add 64 s.1 1, s.2.1.set! (U.add 64 s.1 1) (Point.AffineCached.fromP3 tmp3), tmp3, tmp1), true)
+  else .ok (s, false)
+
+def nafLookupTable8_FromP3 (v : Array AffineCached) (q : P3) : Res (Array AffineCached) :=
+  Res.bind (Loop.iter (naf8Step (Point.add q q)) 65
+    (0, (Point.AffineCached.fromP3 q :: (List.range' 1 63).map (fun i => v[i]!)).toArray, (⟨Fe.rz, Fe.rz, Fe.rz, Fe.rz⟩ : P3), zeroP1xP1)) fun r =>
+  .ok r.2.1
+
+/-- one step of the model's `naf8Table` -/
+def naf8ModelStep (q2 : P3) (t : Array AffineCached) (i : Nat) : Array AffineCached :=
+  t.push (Point.AffineCached.fromP3 (Point.fromP1xP1 (Point.P1xP1.addAffine q2 t[i]!)))
+
+theorem naf8Table_fold (q : P3) :
+    Point.naf8Table q = (List.range 63).foldl (naf8ModelStep (Point.add q q)) #[Point.AffineCached.fromP3 q] := rfl
+
+theorem naf8Model_size (q2 : P3) (t0 : Array AffineCached) (k : Nat) :
+    ((List.range k).foldl (naf8ModelStep q2) t0).size = t0.size + k := by
+  induction k with
+  | zero => rfl
+  | succ k ih =>
+    rw [foldl_range_succ]
+    show (Array.push _ _).size = _
+    rw [Array.size_push, ih]; omega
+
+theorem getElem!_push_lt {α : Type} [Inhabited α] (t : Array α) (x : α) (j : Nat) (h : j < t.size) : (t.push x)[j]! = t[j]! := by
+  rw [getElem!_pos (t.push x) j (by simp; omega), getElem!_pos t j h, Array.getElem_push_lt]
+
+theorem getElem!_push_eq {α : Type} [Inhabited α] (t : Array α) (x : α) : (t.push x)[t.size]! = x := by
+  rw [getElem!_pos (t.push x) t.size (by simp)]; simp
+
+theorem slt_63 (i : Nat) (h : i < 2 ^ 63) : S.lt 64 i 63 = decide (i < 63) := slt_small i 63 h (by omega)
+
+theorem nafLookupTable8_FromP3_eq (v : Array AffineCached) (q : P3) :
+    nafLookupTable8_FromP3 v q = .ok (Point.naf8Table q) := by
+  unfold nafLookupTable8_FromP3
+  let q2 := Point.add q q
+  let M : Nat → Array AffineCached := fun k => (List.range k).foldl (naf8ModelStep q2) #[Point.AffineCached.fromP3 q]
+  have hM : ∀ k, (M k).size = k + 1 := by
+    intro k
+    have := naf8Model_size q2 #[Point.AffineCached.fromP3 q] k
+    simp at this
+    show ((List.range k).foldl (naf8ModelStep q2) #[Point.AffineCached.fromP3 q]).size = k + 1
+    omega
+  have hinit : ((Point.AffineCached.fromP3 q :: (List.range' 1 63).map (fun i => v[i]!)).toArray).size = 64 := by simp
+  have key := Loop.iter_inv (naf8Step q2)
+    (fun k s => s.1 = k ∧ s.2.1.size = 64 ∧ ∀ j, j ≤ k → s.2.1[j]! = (M k)[j]!)
+    (fun e => e.2.1 = M 63) 63
+    (by
+      intro k hk s ⟨h1, h2, h3⟩
+      obtain ⟨i, tab, t3, t1⟩ := s
+      simp only at h1 h2 h3
+      subst h1
+      unfold naf8Step
+      have e1 : U.add 64 i 1 = i + 1 := by unfold U.add; omega
+      simp only [slt_63 i (by omega), hk, decide_true, if_true, e1, show i + 1 < 64 by omega, show i < 64 by omega, Res.guard_true, Res.bind_ok]
+      refine ⟨_, rfl, rfl, by simp [h2], ?_⟩
+      intro j hj
+      show (tab.set! (i + 1) _)[j]! = (M (i+1))[j]!
+      have hMs : M (i+1) = naf8ModelStep q2 (M i) i := foldl_range_succ _ _ _
+      rw [get_set!' _ _ _ _ (by omega), hMs]
+      unfold naf8ModelStep
+      by_cases hji : j = i + 1
+      · rw [if_pos hji, hji]
+        have : i + 1 = (M i).size := (hM i).symm
+        rw [this, getElem!_push_eq, h3 i (Nat.le_refl _)]
+      · rw [if_neg hji, getElem!_push_lt _ _ _ (by rw [hM]; omega)]
+        exact h3 j (by omega))
+    (by
+      intro s ⟨h1, h2, h3⟩
+      refine ⟨s, ?_, ?_⟩
+      · unfold naf8Step
+        rw [h1, slt_63 63 (by omega)]
+        rfl
+      · apply array_ext! _ _ (by rw [h2, hM])
+        intro j hj
+        exact h3 j (by omega))
+    0 (0, (Point.AffineCached.fromP3 q :: (List.range' 1 63).map (fun i => v[i]!)).toArray, (⟨Fe.rz, Fe.rz, Fe.rz, Fe.rz⟩ : P3), zeroP1xP1)
+    (by omega) ⟨rfl, hinit, by
+      intro j hj
+      have : j = 0 := by omega
+      subst this
+      rfl⟩ 65 (by omega)
+  obtain ⟨e, he, hp⟩ := key
+  rw [he, Res.bind_ok, hp, naf8Table_fold]
 end EdVerif.FormulaSpec
